@@ -28,6 +28,7 @@ def run_property(prop, tier, root, out_dir=None, quiet=False, only_rules=None):
     run.aborted = None
     # what the analysed view of the program is: helpers absent from the pinned tree are analysed inlined (vf/inline.py)
     run.notes["transparent_helpers_inlined"] = {k: v for k, v in getattr(prog, "inlined", {}).items()}
+    run.notes["guard_clauses_normalized"] = getattr(prog, "guards_normalized", 0)
     try:
         runner.run_checks(prop, prog, run)
     except model.AnalysisError as e:
